@@ -1,6 +1,8 @@
 import TsVerif.C03.DriverLemmas2
 import TsVerif.C03.DeriveLemmas
 import TsVerif.C03.LangLemmas
+import TsVerif.C03.DynLemmas
+import TsVerif.C03.PrattLemmas
 import TsVerif.C03.Judge
 /-!
 # C03 — A generated parser recognises exactly its grammar and builds its derivation
@@ -100,7 +102,48 @@ theorem select_tree_prefers_lower_cost (l r : Cand) (hc : l.errorCost ≠ r.erro
   · have : l.errorCost < r.errorCost := by omega
     simp [h, this]
 
+/-- `dyn_sound`: every (string, total) pair of the dynamic-precedence oracle comes from a derivation
+of the start rule whose `PREC_DYNAMIC` values sum to that total — so the `best` value the judge
+compares the kept tree against is the value of an actual competing derivation. -/
+theorem dyn_sound (g : Grammar) (L : Nat) (b : Rule) (e : List Tok × Int)
+    (hb : g.body g.start = some b) (hnt : isTerminalBody b = false) (he : e ∈ (dynOracle g L).1) :
+    DerivesTokD g (.sym g.start) e.1 e.2 := by
+  unfold dynOracle at he
+  simp only at he
+  exact .symRule hb hnt
+    (enumFixD_sound g L _ 0 [] (by intro x e he; simp [EnvD.get] at he) g.start e he b hb hnt)
+
+/-- `pratt_yield`: the tree the precedence-climbing parser returns is a tree over exactly the given tokens. -/
+theorem pratt_yield (t : OpTable) (toks : List OpTok) (e : ETree) (h : pratt t toks = some e) : e.yield = toks := by
+  unfold pratt at h
+  split at h
+  · next e' he =>
+    cases h
+    have := ((pratt_all t _).1 none toks e [] he).yield
+    simpa using this.symm
+  · cases h
+
+/-- `pratt_respects`: at every node of the Pratt tree the declared precedence and associativity hold
+(`Respects`): the top operator of a right operand (and of a prefix operator's operand) was allowed
+to continue under the operator to its left — higher level, or equal level and that left operator is
+right-associative; the top operator of a left operand was complete when the operator arrived. -/
+theorem pratt_respects (t : OpTable) (toks : List OpTok) (e : ETree) (h : pratt t toks = some e) :
+    Respects t e = true := by
+  unfold pratt at h
+  split at h
+  · next e' he => cases h; exact ((pratt_all t _).1 none toks e [] he).resp
+  · cases h
+
 /-! ## non-vacuity -/
+
+def tinyOps : OpTable :=
+  { bin := [⟨"+", 2, false, "b0"⟩, ⟨"*", 4, false, "b1"⟩, ⟨"^", 6, true, "b2"⟩], un := [⟨"!", 3, "u0"⟩] }
+-- 1 + 1 * 1  ⇒  1 + (1 * 1);   1 ^ 1 ^ 1 ⇒ 1 ^ (1 ^ 1);   ! 1 * 1 + 1 ⇒ (!(1 * 1)) + 1
+example : pratt tinyOps [.atom, .bin 0, .atom, .bin 1, .atom] = some (.bin 0 .atom (.bin 1 .atom .atom)) := by decide
+example : pratt tinyOps [.atom, .bin 2, .atom, .bin 2, .atom] = some (.bin 2 .atom (.bin 2 .atom .atom)) := by decide
+example : pratt tinyOps [.un 0, .atom, .bin 1, .atom, .bin 0, .atom] =
+    some (.bin 0 (.un 0 (.bin 1 .atom .atom)) .atom) := by decide
+example : Respects tinyOps (.bin 1 .atom (.bin 0 .atom .atom)) = false := by decide
 
 /-- a tiny table: `S → a`, start state 1, `a` = symbol 1, `S` = symbol 2 -/
 def tinyTable : Table :=
